@@ -478,6 +478,28 @@ def main(argv):
             break
         st, so, se = run_limited([tool, "-w", "40"] + mode + [idc], stdin=b"".join(l + b"\n" for l in ls), timeout=120)
         check_stream("big-line" + (mode and ":-s" or ""), ls, st, so, se, "60 short lines around two lines of ~300 kB / 150 kB | foldfilter -w 40 %s child_id.py" % " ".join(mode))
+    # a line longer than the reader's 1 MiB buffer: on stdin (pipe and regular file), and as a child answer
+    # (width larger than the line, so the whole line is one piece and comes back as one 1.3 MB answer)
+    hugel = (" ".join("tok%d" % (i % 977) for i in range(200000))).encode()          # ~1.3 MB
+    ls = [b"short", hugel, b"", b"after", hugel[:1200000], b"end"]
+    hin = b"".join(l + b"\n" for l in ls)
+    for tag, wopt, child in (("huge-line:pipe", "40", idc), ("huge-line:answer", "3000000", idc), ("huge-line:answer-cat", "3000000", "cat")):
+        if stream_hangs[0] >= 3:
+            break
+        st, so, se = run_limited([tool, "-w", wopt, child], stdin=hin, timeout=120, mem_mb=4096)
+        check_stream(tag, ls, st, so, se, "short / 1.3 MB line / empty / after / 1.2 MB line / end through a pipe | foldfilter -w %s %s" % (wopt, os.path.basename(child)))
+    if stream_hangs[0] < 3:
+        import tempfile
+        with tempfile.NamedTemporaryFile(dir=os.environ.get("VERIF_BUILD", "/var/tmp")) as tf:
+            tf.write(hin)
+            tf.flush()
+            with open(tf.name, "rb") as fh:
+                try:
+                    pr = subprocess.run([tool, "-w", "40", "cat"], stdin=fh, stdout=subprocess.PIPE, stderr=subprocess.PIPE, timeout=120)
+                    st, so, se = pr.returncode, pr.stdout, pr.stderr
+                except subprocess.TimeoutExpired as e:
+                    st, so, se = "timeout", e.stdout or b"", e.stderr or b""
+        check_stream("huge-line:file", ls, st, so, se, "the same with stdin redirected from a regular file | foldfilter -w 40 cat")
     for n, cuts in ((2500, (1023, 2046)), (1100, (1022,)), (2100, (1024, 2047))):
         ls = mklines(n)
         enc = [l + b"\n" for l in ls]
